@@ -48,7 +48,7 @@ InR == Rs \cup {None, "ZZ"}
 (* of them with TLAPS, LikelyProofs.tla); TLC checks a spread of six          *)
 LawCfgs == IF Universe = "1x2x1"
            THEN {FbNone, FbAll, {"uscript", "uregion", "bare"}, {"bare"}, {"uscript"}, {"bareAny", "ulangregion"}}
-           ELSE {FbNone, FbAll, {"uscript", "uregion", "bare"}}      \* the larger universes: half a million tables each
+           ELSE {FbNone, FbAll}                                       \* the larger universes: half a million tables each
 C07 == ph = 1 => \A l \in InL, s \in InS, r \in InR, fb \in LawCfgs : LawsMax(T, l, s, r, fb)
 C08 == ph = 1 => \A l \in InL, s \in InS, r \in InR, fb \in LawCfgs : LawsMin(T, l, s, r, fb)
 (* (with the optional bare-"und" fallback an implementation could lengthen  *)
